@@ -11,6 +11,7 @@ package main
 //   * hide mode: the Individuals card says Total = Dead = number of people who are not living and
 //     Living = 0;
 //   * every mode: Living + Dead = Total, and in show/placeholder mode Total = number of INDI records;
+//   * the Places card shows the number the Places badge of the header shows;
 //   * the source list and the body of every source page are byte-identical in show, placeholder and
 //     hide mode (they read no individual);
 //   * hide mode, document A vs variant B (living people's data differ): statistics.html, sources.html
@@ -252,6 +253,27 @@ func c17StatsCheck(c *Ctx, gdoc *gedcom.Document, abs, ob string, groups [6]bool
 			c.Count("stats-pages/sources.html")
 		}
 		c.Nontrivial(fmt.Sprintf("stats/%s/%s/src%d/ev%d", vis, ob, nsrc, co.events/4))
+		// (S) the Places card shows what the Places badge of the same page shows (the places that get a page)
+		if page, ok := site.Files["statistics.html"]; ok && groups[1] {
+			atoms := c17Atoms(page)
+			badge, card := -1, -1
+			for i, a := range atoms {
+				if a != "TPlaces" || i+2 >= len(atoms) {
+					continue
+				}
+				if badge < 0 && atoms[i+1] != "TTotal" {
+					badge = c17Num(atoms[i+1][1:])
+				}
+				if atoms[i+1] == "TTotal" {
+					card = c17Num(atoms[i+2][1:])
+				}
+			}
+			c.Eval()
+			if badge >= 0 && card >= 0 && badge != card {
+				c.Oracle("C17-stats-"+vis+"-places-total", vis+" mode: the Places card of the statistics does not count the places that are published",
+					input(map[string]interface{}{"living": vis}), fmt.Sprintf("Places card: Total %d", card), fmt.Sprintf("%d (the Places badge of the header)", badge))
+			}
+		}
 		// (S) the Individuals card
 		if co.living+co.dead != co.total {
 			c.Oracle("C17-stats-sum", vis+" mode: Living + Dead is not Total on the Individuals card",
